@@ -7,7 +7,7 @@
    [quorum_signed c s m] := exists S, NoDup S /\ qsize c <= |S| /\ S ⊆ replicas /\
                             forall i ∈ S, the signature object s contains a genuine signature of i over m. *)
 From HS Require Import Base.Prelude Crypto.Symbolic Crypto.SchemeModel Crypto.SchemeProofs
-  Cert.CertModel Cert.CertProofs.
+  Cert.CertModel Cert.CertProofs Cert.CertPopModel Cert.CertPopProofs.
 
 (* every participant that Verify counted is a distinct configured replica that really signed m *)
 Theorem C02_scheme_verify_sound : forall (members : list rid) (sch : scheme) (s : qsig) (m : msg),
@@ -100,6 +100,68 @@ Theorem C02_aggqc_complete : forall (c : cfg) (v : view) (ts : list (rid * qc)),
 Proof. exact aggqc_complete. Qed.
 Print Assumptions C02_aggqc_complete.
 
+(* ---- proof of possession (BLS) and Equals at its real granularity: CertPopModel.v ----
+   [usable c x]: the replicas for which the verifier x obtains a key — all of them for ECDSA/EdDSA,
+   for BLS those that are the verifier itself or whose registered proof of possession verifies.  A
+   replica with a missing or invalid proof contributes nothing, whatever was verified before. *)
+Theorem C02_usable_keys : forall (c : cfg) (x : vctx),
+  incl (usable c x) (c_replicas c) /\
+  (c_scheme c = Bls12 -> forall i, In i (usable c x) -> i = v_self x \/ ~ In i (v_badpop x)).
+Proof. intros c x. split; [apply usable_incl | intros H i; now apply usable_bls_pop]. Qed.
+Print Assumptions C02_usable_keys.
+
+Theorem C02_qc_sound_pop : forall (c : cfg) (x : vctx) (st : store) (q : qc),
+  verify_qc_p c x st q = Ok tt ->
+  (qc_hash q = c_genesis c /\ qc_view q = 0%N) \/
+  exists s b, qc_sig q = Some s /\ st (qc_hash q) = Some b /\ bi_view b = qc_view q /\
+    exists S : list rid, NoDup S /\ (qsize c <= length S)%nat /\ incl S (usable c x) /\
+                         forall i, In i S -> genuine s i (MBlock (bi_hash b)).
+Proof. exact qc_sound_p. Qed.
+Print Assumptions C02_qc_sound_pop.
+
+Theorem C02_tc_sound_pop : forall (c : cfg) (x : vctx) (t : tc),
+  verify_tc_p c x t = Ok tt ->
+  tc_view t = 0%N \/
+  exists s, tc_sig t = Some s /\
+    exists S : list rid, NoDup S /\ (qsize c <= length S)%nat /\ incl S (usable c x) /\
+                         forall i, In i S -> genuine s i (MView (tc_view t)).
+Proof. exact tc_sound_p. Qed.
+Print Assumptions C02_tc_sound_pop.
+
+Theorem C02_aggqc_sound_pop : forall (c : cfg) (x : vctx) (st : store) (a : aggqc) (h : qc),
+  c_genesis c <> zero_hash ->
+  verify_aggqc_p c x st a = Ok h ->
+  exists s S, aq_sig a = Some s /\ NoDup S /\ (qsize c <= length S)%nat /\ incl S (usable c x) /\
+    (forall i, In i S -> exists q, lookupN i (aq_qcs a) = Some q /\
+                                   genuine s i (MTimeout i (aq_view a) (Some (qc_digest q)))) /\
+    (forall i, In i (map fst (aq_qcs a)) -> In i S) /\
+    (In h (map snd (map_of (aq_qcs a))) /\ qc_valid_p c x st h = true /\
+     forall q, In q (map snd (map_of (aq_qcs a))) -> qc_valid_p c x st q = true -> (qc_view q <= qc_view h)%N).
+Proof. exact aggqc_sound_p. Qed.
+Print Assumptions C02_aggqc_sound_pop.
+
+(* VerifyAnyQC: the block's QC itself verifies; agreeing with the aggregate's high QC under
+   QuorumCert.Equals (view, hash, signature bytes — not the claimed signers) is never sufficient *)
+Theorem C02_any_qc_sound_pop : forall (c : cfg) (x : vctx) (st : store) (sd : qcdigest -> N)
+    (bq : qc) (ag : option aggqc) (pick : result qc -> result qc),
+  verify_any_qc_p c x st sd bq ag pick = Ok tt ->
+  verify_qc_p c x st bq = Ok tt /\
+  (c_aggqc c = true -> forall a, ag = Some a ->
+     exists h, pick (verify_aggqc_p c x st a) = Ok h /\ qc_equals_sd sd bq h = true).
+Proof. exact any_qc_sound_p. Qed.
+Print Assumptions C02_any_qc_sound_pop.
+
+(* with every registered proof valid these are the functions of CertModel.v (to which the
+   completeness theorems above apply) *)
+Theorem C02_pop_plain : forall (c : cfg) (x : vctx) (st : store), v_badpop x = [] ->
+  (forall q, verify_qc_p c x st q = verify_qc c st q) /\
+  (forall t, verify_tc_p c x t = verify_tc c t) /\
+  (forall a, verify_aggqc_p c x st a = verify_aggqc c st a).
+Proof.
+  intros c x st H. split; [|split]; intros; [now apply verify_qc_p_plain | now apply verify_tc_p_plain | now apply verify_aggqc_p_plain].
+Qed.
+Print Assumptions C02_pop_plain.
+
 (* ---- non-vacuity: concrete values (n = 4, q = 3; genesis hash 1, block 2 of view 1, block 3 of view 2) ---- *)
 Local Open Scope N_scope.
 Definition ex_st : store := fun h =>
@@ -144,3 +206,26 @@ Example C02_ex_bls :
   verify_qc (ex_cfg Bls12) ex_st (mkQC (Some (QBls [1;2;3]%N (Some [(1, MBlock 2); (2, MBlock 2); (4, MBlock 2)]%N))) 1 2 7) = Reject /\
   verify_qc (ex_cfg Bls12) ex_st (mkQC (Some (QBls [1;2;3]%N (Some [(1, MBlock 2); (1, MBlock 2); (2, MBlock 2); (3, MBlock 2)]%N))) 1 2 7) = Reject.
 Proof. vm_compute. split; reflexivity. Qed.
+
+(* BLS: replica 3's registered proof of possession is bad: at verifier 1 a certificate that needs 3 is
+   rejected, one by {1,2,4} is accepted; replica 3 itself does not check its own proof *)
+Example C02_ex_pop :
+  let q124 := mkQC (Some (QBls [1;2;4] (Some [(1, MBlock 2); (2, MBlock 2); (4, MBlock 2)]))) 1 2 7 in
+  let q123 := mkQC (Some (QBls [1;2;3] (Some [(1, MBlock 2); (2, MBlock 2); (3, MBlock 2)]))) 1 2 8 in
+  verify_qc_p (ex_cfg Bls12) (mkV 1 [3]) ex_st q124 = Ok tt /\
+  verify_qc_p (ex_cfg Bls12) (mkV 1 [3]) ex_st q123 = Reject /\
+  verify_qc_p (ex_cfg Bls12) (mkV 3 [3]) ex_st q123 = Ok tt /\
+  verify_qc_p (ex_cfg Ecdsa) (mkV 1 [3]) ex_st (mkQC (Some (ex_multi [1;2;3] (MBlock 2))) 1 2 9) = Ok tt.
+Proof. vm_compute. repeat split; reflexivity. Qed.
+
+(* a relabelled twin of the high QC as block QC: equal under Equals, still rejected *)
+Example C02_ex_twin_block_qc :
+  let q := mkQC (Some (ex_multi [1;2;3] (MBlock 2))) 1 2 7 in
+  let twin := mkQC (Some (QMulti KEcdsa [mkSig 2 (Some (1, MBlock 2)); mkSig 3 (Some (2, MBlock 2)); mkSig 1 (Some (3, MBlock 2))])) 1 2 8 in
+  let a := mkAgg [(1, q); (2, q); (3, q)]
+             (Some (QMulti KEcdsa [ex_sg 1 (MTimeout 1 6 (Some 7)); ex_sg 2 (MTimeout 2 6 (Some 7)); ex_sg 3 (MTimeout 3 6 (Some 7))])) 6 in
+  let sd := fun d : qcdigest => match d with 7 | 8 => 5 | _ => 0 end in
+  qc_equals_sd sd twin q = true /\
+  verify_any_qc_p (ex_cfg Ecdsa) (mkV 1 []) ex_st sd twin (Some a) (fun r => r) = Reject /\
+  verify_any_qc_p (ex_cfg Ecdsa) (mkV 1 []) ex_st sd q (Some a) (fun r => r) = Ok tt.
+Proof. vm_compute. repeat split; reflexivity. Qed.
